@@ -64,7 +64,20 @@ def term_of(n, env):
     if k == "local":
         if n["id"] in env:
             return env[n["id"]]
+        for i_, v_ in env.items():
+            if canon(i_) == canon(n["id"]):
+                return v_
         return ("?local", n["name"])
+    if k == "callv":
+        # a call of a closure value (e.g. the `op` parameter of an inlined helper): substitute the arguments
+        fcl = resolve(n["f"])
+        if fcl.get("k") == "closure" and len(fcl["params"]) == len(n["args"]):
+            env2 = dict(env)
+            for p_, a_ in zip(fcl["params"], n["args"]):
+                pb_ = pat_bindings(p_)
+                if len(pb_) == 1:
+                    env2[pb_[0][1]] = term_of(a_, env)
+            return term_of(peel_block(fcl["body"]), env2)
     if k == "mcall":
         nm = n["name"]
         if nm in ("into", "clone", "unwrap_or_default", "unwrap", "to_owned"):
@@ -99,8 +112,12 @@ class Sim:
 
     def which(self, n):
         n = peel(n)
-        if n.get("k") == "local" and n["id"] in self.ids:
-            return self.ids[n["id"]]
+        if n.get("k") == "local":
+            if n["id"] in self.ids:
+                return self.ids[n["id"]]
+            for i_, w_ in self.ids.items():
+                if canon(i_) == canon(n["id"]):
+                    return w_
         return None
 
     def pop_expr(self, n):
@@ -112,6 +129,18 @@ class Sim:
         return None
 
     def ev_value(self, n):
+        n0 = n
+        while n0.get("k") in ("try",):
+            n0 = n0["e"]
+        if n0.get("k") == "blockexpr" and "inl_id" in n0 and "tail" in n0["b"]:
+            # an inlined helper that yields a value: its parameter bindings, then its value
+            for x in n0["b"]["stmts"]:
+                x0 = unsemi(x)
+                if x0.get("k") == "let" and "init" in x0 and x0["pat"].get("k") == "pbind" and self.which(x0["init"]):
+                    self.ids[x0["pat"]["id"]] = self.which(x0["init"])
+                else:
+                    self.stmt(x)
+            return self.ev_value(n0["b"]["tail"])
         p = self.pop_expr(n)
         if p:
             w, kind = p
@@ -198,7 +227,7 @@ def run(ctx):
     stacks = {}
     todo_id = None
     for i, d in defs.items():
-        if d[0] == "let" and d[2].get("k") == "pbind":
+        if d[0] == "let" and d[2].get("k") == "pbind" and not d[1].get("inl_param"):
             nm = d[2]["name"]
             if nm == "bv_stack":
                 stacks[i] = "bv"
@@ -271,7 +300,8 @@ def run(ctx):
         if b.get("k") == "call" and callee(b) in helper_order:
             npop = helper_order[callee(b)]
             cl = peel(b["args"][1])
-            if npop is None or cl.get("k") != "closure" or len(cl["params"]) != npop or not (peel(b["args"][0]).get("k") == "local" and stacks.get(peel(b["args"][0])["id"]) == "bv"):
+            cl = resolve(b["args"][1])
+            if npop is None or cl.get("k") != "closure" or len(cl["params"]) != npop or sim.which(b["args"][0]) != "bv":
                 ctx.violation("R06.1", "eval:%s" % name, arm["sp"], "UNRECOGNISED helper call %s" % show(b)[:100])
                 continue
             env = dict(attrs)
@@ -385,22 +415,34 @@ def discipline(ctx, f, ix, defs, stacks, todo_id):
     fec = [n for n in ix.nodes if n.get("k") == "mcall" and n["name"] == "for_each_child"]
     ok = len(fec) == 1
     if ok:
-        cl = peel(fec[0]["args"][0])
-        cb = binding_of_pat(cl["params"][0])
-        pushes = [n for n in walk(cl["body"]) if n.get("k") == "mcall" and n["name"] == "push" and is_local(n["recv"], todo_id)]
+        cl = resolve(fec[0]["args"][0])
+        cb = binding_of_pat(cl["params"][0]) if cl.get("k") == "closure" and cl.get("params") else None
+
+        def entry(push):
+            """(node operand, tag) of a work-list entry: `(e, flag)` tuples or `Task::Kind(e)` constructors"""
+            t = peel(push["args"][0])
+            if t.get("k") == "tuple" and len(t["es"]) == 2 and peel(t["es"][1]).get("k") == "lit":
+                return t["es"][0], ("flag", peel(t["es"][1]).get("v"))
+            if t.get("k") == "ctor" and len(t.get("args", [])) == 1:
+                return t["args"][0], ("kind", callee(t))
+            return None, None
+        pushes = [n for n in walk(cl.get("body", {})) if n.get("k") == "mcall" and n["name"] == "push" and is_local(n["recv"], todo_id)] if cb else []
         child_push = [p for p in pushes if any(x.get("k") == "local" and x["id"] == cb[1] for x in walk(p["args"][0]))]
         parent_push = [p for p in pushes if p not in child_push]
-        cix = ix
-        ok = len(child_push) == 1 and len(parent_push) == 1
+        roots = [n for n in ix.nodes if n.get("k") == "mcall" and n["name"] == "push" and is_local(n["recv"], todo_id) and not ix.enclosing(n, ("while", "loop", "for"))]
+        ok = len(child_push) == 1 and len(parent_push) == 1 and len(roots) == 1
         if ok:
             # child push unconditional inside the closure; parent push precedes it
             rc = ix.regions[id(child_push[0])]
             rcl = ix.regions[id(cl)]
             ok = len(rc) == len(rcl) + 1 and ix.precedes(parent_push[0], child_push[0])
-            t = peel(child_push[0]["args"][0])
-            ok = ok and t.get("k") == "tuple" and peel(t["es"][1]).get("v") is False
-            t2 = peel(parent_push[0]["args"][0])
-            ok = ok and t2.get("k") == "tuple" and peel(t2["es"][1]).get("v") is True
+            ce, ctag = entry(child_push[0])
+            pe, ptag = entry(parent_push[0])
+            re_, rtag = entry(roots[0])
+            # children are scheduled like the root (to be visited), the parent with the other tag (its arguments are available)
+            ok = ok and ctag is not None and ptag is not None and ctag == rtag and ptag != ctag and is_local(ce, cb[1])
+            if ok and ctag[0] == "flag":
+                ok = ctag[1] is False and ptag[1] is True
     ctx.inst("R06.1", "discipline:children-pushed-in-order", ok, fec[0]["sp"] if fec else f["span"],
              "children must be pushed onto the work list unconditionally in for_each_child order, after their parent was re-pushed with args_available = true")
 
@@ -413,26 +455,31 @@ def shortcircuit(ctx, f, ix, defs, stacks, todo_id):
         why = "expected one %s lookup before the children are scheduled" % getter
         if ok:
             g = gs[0]
-            the_if = None
+            # the lookup is eliminated by `if let Some(v) = lookup {..}` / `match lookup { Some(v) => .., None => .. }`
+            hit = vb = None
             for a in ix.ancestors(g):
-                if a.get("k") == "if" and any(x is g for x in walk(a["cond"])):
-                    the_if = a
+                if a.get("k") == "if" and peel(a["cond"]).get("k") == "letexpr" and strip_try(peel(a["cond"])["init"]) is g:
+                    c = peel(a["cond"])
+                    if c["pat"].get("k") == "pvariant" and c["pat"]["path"].endswith("Option::Some"):
+                        vb = binding_of_pat(c["pat"]["subs"][0])
+                        hit = a["then"]
                     break
-            ok = the_if is not None
+                if a.get("k") == "match" and strip_try(a["scrut"]) is g:
+                    for arm in a["arms"]:
+                        p_ = arm["pat"]
+                        if p_.get("k") == "pvariant" and p_["path"].endswith("Option::Some") and len(p_["subs"]) == 1:
+                            vb = binding_of_pat(p_["subs"][0])
+                            hit = arm["body"]
+                    break
+            ok = hit is not None and vb is not None
+            why = "the lookup result is not tested with `if let Some(v)` / `match`"
             if ok:
-                c = peel(the_if["cond"])
-                vb = None
-                if c.get("k") == "letexpr" and c["pat"].get("k") == "pvariant" and c["pat"]["path"].endswith("Option::Some") and peel(c["init"]) is g:
-                    vb = binding_of_pat(c["pat"]["subs"][0])
-                then = the_if["then"]
-                pushes = [x for x in walk(then) if x.get("k") == "mcall" and x["name"] == "push" and peel(x["recv"]).get("k") == "local" and stacks.get(peel(x["recv"])["id"]) == st]
-                conts = [x for x in walk(then) if x.get("k") == "continue"]
-                todo_p = [x for x in walk(then) if x.get("k") == "mcall" and x["name"] == "push" and is_local(x["recv"], todo_id)]
-                ok = vb is not None and len(pushes) == 1 and is_local(pushes[0]["args"][0], vb[1]) and len(conts) == 1 and not todo_p
-                # looked-up key is the popped expression
-                while_ = ix.enclosing(g, ("while",))
+                sim = Sim([], [], stacks, {})
+                pushes = [x for x in walk(hit) if x.get("k") == "mcall" and x["name"] == "push" and sim.which(x["recv"]) == st]
+                conts = [x for x in walk(hit) if x.get("k") == "continue"]
+                todo_p = [x for x in walk(hit) if x.get("k") == "mcall" and x["name"] == "push" and is_local(x["recv"], todo_id)]
+                ok = len(pushes) == 1 and is_local(pushes[0]["args"][0], vb[1]) and len(conts) == 1 and not todo_p
                 why = "the hit branch must push the supplied value and continue without scheduling children"
-                # the lookup happens only before args are available
         ctx.inst("R06.3", "shortcircuit:%s" % getter, bool(ok), gs[0]["sp"] if gs else f["span"], why)
     # value stores look up by reference
     c = ctx.facts.lib("patronus")
